@@ -297,6 +297,14 @@ class Builtin2Mixin:
             o = self.alloc(st, self.cls('tuple'))
             st.LS = z3.Store(st.LS, r_of(o.term), self.spec_seq(st, val))
             self.hstore(st, r, 'snapshot', o.term)
+            snap2 = self.config.get('user_call_snapshot2')
+            if snap2:
+                val2 = self.sev(st, _ast.parse(snap2, mode='eval').body,
+                                {'__target_module__': self.cur_unit.module if self.cur_unit else None, '__old__': self.unit_pre},
+                                self.unit_contract.module if self.unit_contract is not None else None)
+                o2 = self.alloc(st, self.cls('tuple'))
+                st.LS = z3.Store(st.LS, r_of(o2.term), self.spec_seq(st, val2))
+                self.hstore(st, r, 'snapshot2', o2.term)
         st.TR = z3.Concat(st.TR, z3.Unit(ev.term))
         return ev
 
@@ -444,7 +452,7 @@ class Builtin2Mixin:
 
         if is_yield_stmt(ys):
             trynode = None
-        elif isinstance(ys, ast.Try) and len(ys.body) == 1 and is_yield_stmt(ys.body[0]) and not ys.orelse:
+        elif isinstance(ys, ast.Try) and len(ys.body) == 1 and is_yield_stmt(ys.body[0]):
             trynode = ys
         else:
             raise Unsupported('contextmanager shape (yield must be alone in a try body)', node)
@@ -461,11 +469,11 @@ class Builtin2Mixin:
         frame.env = fv.env
         holder = {}
 
-        def run_in_frame(st, stmts):
+        def run_in_frame(st, stmts, token=None):
             saved_frame, saved_loc = st.frame, st.loc
             st = st.copy()
             frame.parent = saved_frame
-            st.frame, st.loc = frame, holder.get('loc', loc)
+            st.frame, st.loc = frame, (token if token is not None else loc)
             saved_unit = eng.cur_unit
             outs = eng.ex_block(st, stmts)
             res = []
@@ -479,17 +487,16 @@ class Builtin2Mixin:
             outs = []
             for o, l in run_in_frame(st, pre):
                 if o.kind == 'ok':
-                    holder['loc'] = l
-                    outs.append(Out('ok', o.st, eng.py_none()))
+                    eo = Out('ok', o.st, eng.py_none())
+                    eo.token = l   # the generator frame's locals on this path
+                    outs.append(eo)
                 elif o.kind == 'raise':
                     outs.append(o)
                 else:
                     raise Unsupported('contextmanager enter returned')
-            if len([o for o in outs if o.kind == 'ok']) > 1:
-                raise Unsupported('contextmanager enter forks')
             return outs
 
-        def exit_(eng_, body_out: Out):
+        def exit_(eng_, body_out: Out, token=None):
             st = body_out.st
             results = []
             if trynode is None:
@@ -497,11 +504,15 @@ class Builtin2Mixin:
                     return [body_out]
                 cont = [(Out('ok', st), None)]
             else:
-                if body_out.kind == 'raise' and trynode.handlers:
+                if body_out.kind == 'ok' and trynode.orelse:
+                    cont = []
+                    for fo, l in run_in_frame(st, trynode.orelse, token):
+                        cont.append((Out('ok', fo.st) if fo.kind == 'ok' else fo, None))
+                elif body_out.kind == 'raise' and trynode.handlers:
                     saved_frame, saved_loc = st.frame, st.loc
                     s2 = st.copy()
                     frame.parent = saved_frame
-                    s2.frame, s2.loc = frame, holder.get('loc', loc)
+                    s2.frame, s2.loc = frame, (token if token is not None else loc)
                     hs = eng.dispatch_handlers(s2, body_out.val, trynode.handlers)
                     cont = []
                     for o in hs:
@@ -515,7 +526,7 @@ class Builtin2Mixin:
                 if trynode.finalbody:
                     nc = []
                     for o, _ in cont:
-                        for fo, l in run_in_frame(o.st, trynode.finalbody):
+                        for fo, l in run_in_frame(o.st, trynode.finalbody, token):
                             if fo.kind == 'ok':
                                 nc.append((Out(o.kind, fo.st, o.val), None))
                             else:
@@ -523,7 +534,7 @@ class Builtin2Mixin:
                     cont = nc
             for o, _ in cont:
                 if o.kind == 'ok' and post:
-                    for po, l in run_in_frame(o.st, post):
+                    for po, l in run_in_frame(o.st, post, token):
                         results.append(Out('ok', po.st) if po.kind in ('ok', 'ret') else po)
                 else:
                     results.append(o)
